@@ -22,3 +22,5 @@ def run(ctx):
         gsm.run(ctx, "C06", 120 if q else 1200)
         from .. import alac           # CAF/ALAC: packet staging, pakt / kuki chunks, read / seek around the codec core (lean/SfModel/AlacFile.lean)
         alac.run(ctx, "C06", 96 if q else 960)
+        from .. import querycamp     # interleaved non-audio calls (chunk / string / metadata queries, SFC_CALC_*, …) do not move the audio position
+        querycamp.run(ctx, "C06")
